@@ -18,6 +18,8 @@ pub struct Callbacks {
     pub holder_settle: fn(*const (), usize),
     /// entry of a synchronisation function: a scheduling point
     pub sync_point: fn(*const (), usize),
+    /// the thread's function-entry counter reached a preemption point chosen by the plan
+    pub preempt: fn(*const (), usize),
 }
 
 struct Installed {
@@ -34,6 +36,21 @@ thread_local! {
     static CTX: Cell<*const ()> = const { Cell::new(std::ptr::null()) };
     static ME: Cell<usize> = const { Cell::new(0) };
     static SETTLE_WINDOW: Cell<u32> = const { Cell::new(0) };
+    /// function entries seen by this simulated thread, and the next count at which it is preempted
+    static ENTRIES: Cell<u64> = const { Cell::new(0) };
+    static NEXT_PREEMPT: Cell<u64> = const { Cell::new(u64::MAX) };
+    static PREEMPTS: std::cell::RefCell<Vec<u64>> = const { std::cell::RefCell::new(Vec::new()) };
+}
+
+/// ascending function-entry counts at which the calling simulated thread must yield
+pub fn set_preempts(mut v: Vec<u64>) {
+    v.sort_unstable();
+    v.dedup();
+    v.reverse(); // pop from the back
+    let first = v.last().copied().unwrap_or(u64::MAX);
+    PREEMPTS.with(|p| *p.borrow_mut() = v);
+    ENTRIES.with(|e| e.set(0));
+    NEXT_PREEMPT.with(|n| n.set(first));
 }
 
 pub fn instrumented() -> bool {
@@ -51,7 +68,25 @@ pub fn installed() -> bool {
 pub fn activate(ctx: *const (), me: usize) {
     CTX.with(|c| c.set(ctx));
     ME.with(|m| m.set(me));
-    if cfg!(pp_mcount) && INSTALLED.get().is_some() {
+    // starts paused: see resume()
+    ACTIVE.with(|a| a.set(false));
+}
+
+/// run `f` (harness code that talks to the scheduler) with the hook switched off for this thread
+pub fn with_hook_disabled<R>(f: impl FnOnce() -> R) -> R {
+    let prev = IN_HOOK.with(|h| h.replace(true));
+    let r = f();
+    IN_HOOK.with(|h| h.set(prev));
+    r
+}
+
+/// the hook only acts while the thread evaluates an operation (library code and the harness glue
+/// around it), never while it is inside the scheduler's own code
+pub fn pause() {
+    ACTIVE.with(|a| a.set(false));
+}
+pub fn resume() {
+    if cfg!(pp_mcount) && INSTALLED.get().is_some() && !CTX.with(|c| c.get()).is_null() {
         ACTIVE.with(|a| a.set(true));
     }
 }
@@ -91,6 +126,20 @@ pub extern "C" fn mcount() {
         if !ctx.is_null() {
             let me = ME.with(|m| m.get());
             let sync = is_sync_addr(&inst.ranges, ra);
+            let n = ENTRIES.with(|e| {
+                let v = e.get() + 1;
+                e.set(v);
+                v
+            });
+            if n >= NEXT_PREEMPT.with(|x| x.get()) {
+                let next = PREEMPTS.with(|p| {
+                    let mut p = p.borrow_mut();
+                    p.pop();
+                    p.last().copied().unwrap_or(u64::MAX)
+                });
+                NEXT_PREEMPT.with(|x| x.set(next));
+                (inst.cb.preempt)(ctx, me);
+            }
             if !(inst.cb.rejoin_if_revoked)(ctx, me) && (inst.cb.any_revoked)(ctx) {
                 // an unlock happens inside a synchronisation function; the thread it wakes must be
                 // settled before the token holder goes on: check at the next few function entries
